@@ -471,6 +471,52 @@ def r7_extended_table(ctx, rule="C13.R7"):
     ctx.require(rule, 16)
 
 
+def r8_function_name_writable_only_inside_it(ctx, rule="C13.R8"):
+    """`a function's result name F is writable only inside the body of F`: the resolver that turns an
+    assignment target into the function's result variable (AssignToFunction) accepts or answers
+    Duplicate definition on a test that is keyed by the NAME being assigned - is the current scope
+    the function of that name - not merely on `we are inside some function`."""
+    prog = ctx.prog
+    impls = [i for i in prog.impls.values() if i["self_ty"].endswith("AssignToFunction") and (i.get("trait") or "").endswith("VarResolve")]
+    if len(impls) != 1:
+        raise CheckError("%s: impl VarResolve for AssignToFunction: %d" % (rule, len(impls)))
+    fid = [it["id"] for it in impls[0]["items"] if it["name"] == "resolve"]
+    f = prog.fns.get(fid[0]) if fid else None
+    if f is None:
+        raise CheckError("%s: AssignToFunction::resolve not found" % rule)
+    body = f.body
+    pv = mir.Prov(body)
+    errs = [b for b, blk in enumerate(body.blocks) for st in blk["s"]
+            if st["k"] == "assign" and st["r"].get("k") == "agg" and (st["r"].get("adt") or "").endswith("LintError")
+            and st["r"].get("variant") == "DuplicateDefinition"]
+    if not errs:
+        raise CheckError("%s: AssignToFunction::resolve never answers DuplicateDefinition" % rule)
+    # the name parameter: the parameter of type Name
+    name_params = [i for i in range(1, f.argc + 1) if body.locals[i]["ty"].endswith("Name")]
+    ok = False
+    why = "no test guards the DuplicateDefinition answer"
+    for e in errs:
+        for d in range(body.nblocks):
+            t = body.term(d)
+            if t["k"] != "switch" or t.get("ty") != "bool" or not body.dominates(d, e):
+                continue
+            succ = body.succ(d)
+            if not any(body.dominates(s_, e) for s_ in succ if s_ != d):
+                continue
+            o = pv.of_operand(t["o"])
+            keyed = mir.origin_mentions(o, lambda z: z[0] == "param" and (z[1] + 1) in name_params)
+            if keyed:
+                ok = True
+            else:
+                why = "the test `%s` does not look at the name being assigned" % mir.short_origin(o)
+    ctx.decide(ok, rule, rule + ":AssignToFunction:keyed-by-the-assigned-name", f.loc,
+               "accepted only when the current scope is the function of the assigned name",
+               "AssignToFunction::resolve decides between `result variable` and Duplicate definition without "
+               "looking at the name being assigned (%s): inside FUNCTION G an assignment to another function's name "
+               "F is accepted and creates a local that shadows later calls of F" % why)
+    ctx.require(rule, 1)
+
+
 def run(ctx):
     common.install(ctx)
     from . import c09
@@ -482,3 +528,4 @@ def run(ctx):
     r5_local_before_global(ctx)
     r6_fallback_keyed_on_same_lookup(ctx)
     r7_extended_table(ctx)
+    r8_function_name_writable_only_inside_it(ctx)
